@@ -1,8 +1,99 @@
 import Drive.Util
-/-! Trace validator for the `bloom` stream(s).  (stub: to be filled in) -/
-namespace Drive.Bloom
+import RV.Model.Bloom
+/-!
+Trace validator for the `bloom` stream (C19).  Filters live in numbered slots.
 
-def run (_h : IO.FS.Stream) : IO Verdict :=
-  return { ok := false, lines := 0, checks := 0, msg := "component bloom not implemented" }
+  new <slot> <entries> <locs>            NewBloomFilter after uint64 conversion of the parameters
+  st <slot> <exp> <size> <locs> <shift> <elemNum> [<hex bytes>]   observed private state (bytes optional)
+  add <slot> <hash>
+  has <slot> <hash> <0|1>                observed result
+  ainh <slot> <hash> <0|1>               AddIfNotHas and its observed result
+  clear <slot>
+  export <slot> <locs> <hex bytes>       FilterSet / SetLocs found inside JSONMarshal's output
+  import <slot> <locs> <hex bytes>       newWithBoolset on these bytes (JSONUnmarshal), into <slot>
+-/
+namespace Drive.Bloom
+open RV.Bloom
+
+abbrev St := List (Nat × Bloom)
+
+def get (st : St) (s : Nat) : Option Bloom := st.lookup s
+def put (st : St) (s : Nat) (b : Bloom) : St := (s, b) :: st.filter (fun p => p.1 != s)
+
+def bool? (s : String) : Option Bool := if s == "1" then some true else if s == "0" then some false else none
+
+def describe (b : Bloom) : String :=
+  s!"exp={b.sizeExp.toNat} size={b.size.toNat} locs={b.setLocs.toNat} shift={b.shift.toNat} elem={b.elemNum.toNat} bytes={b.bytes.size}"
+
+def step (st : St) (_n : Nat) (ws : List String) : Except String (St × Nat) :=
+  match ws with
+  | ["new", s, e, l] =>
+    match nat? s, u64? e, u64? l with
+    | some s, some e, some l => .ok (put st s (RV.Bloom.new e l), 0)
+    | _, _, _ => .error "bad new"
+  | "st" :: s :: e :: sz :: l :: sh :: en :: rest =>
+    match nat? s, u64? e, u64? sz, u64? l, u64? sh, u64? en with
+    | some s, some e, some sz, some l, some sh, some en =>
+      match get st s with
+      | none => .error s!"st: empty slot {s}"
+      | some b =>
+        if !(b.sizeExp == e && b.size == sz && b.setLocs == l && b.shift == sh && b.elemNum == en) then
+          .error s!"state of slot {s}: implementation exp={e.toNat} size={sz.toNat} locs={l.toNat} shift={sh.toNat} elem={en.toNat}, model {describe b}"
+        else match rest with
+          | [] => .ok (st, 1)
+          | [hex] =>
+            match parseHex hex with
+            | none => .error "bad st bytes"
+            | some bs => if bs == b.bytes then .ok (st, 2) else .error s!"bitset bytes of slot {s} differ from the model"
+          | _ => .error "bad st"
+    | _, _, _, _, _, _ => .error "bad st"
+  | ["add", s, h] =>
+    match nat? s, u64? h with
+    | some s, some h =>
+      match get st s with
+      | some b => .ok (put st s (add b h), 0)
+      | none => .error "add: empty slot"
+    | _, _ => .error "bad add"
+  | ["has", s, h, r] =>
+    match nat? s, u64? h, bool? r with
+    | some s, some h, some r =>
+      match get st s with
+      | some b =>
+        let m := has b h
+        if m == r then .ok (st, 1) else .error s!"Has({h.toNat}) on slot {s}: implementation {r}, model {m}"
+      | none => .error "has: empty slot"
+    | _, _, _ => .error "bad has"
+  | ["ainh", s, h, r] =>
+    match nat? s, u64? h, bool? r with
+    | some s, some h, some r =>
+      match get st s with
+      | some b =>
+        let (b', m) := addIfNotHas b h
+        if m == r then .ok (put st s b', 1) else .error s!"AddIfNotHas({h.toNat}) on slot {s}: implementation {r}, model {m}"
+      | none => .error "ainh: empty slot"
+    | _, _, _ => .error "bad ainh"
+  | ["clear", s] =>
+    match nat? s with
+    | some s =>
+      match get st s with
+      | some b => .ok (put st s (clear b), 0)
+      | none => .error "clear: empty slot"
+    | none => .error "bad clear"
+  | ["export", s, l, hex] =>
+    match nat? s, u64? l, parseHex hex with
+    | some s, some l, some bs =>
+      match get st s with
+      | some b =>
+        if b.setLocs != l then .error s!"export of slot {s}: SetLocs implementation {l.toNat}, model {b.setLocs.toNat}"
+        else if exportBytes b == bs then .ok (st, 1) else .error s!"export of slot {s}: FilterSet differs from the model"
+      | none => .error "export: empty slot"
+    | _, _, _ => .error "bad export"
+  | ["import", s, l, hex] =>
+    match nat? s, u64? l, parseHex hex with
+    | some s, some l, some bs => .ok (put st s (importBytes bs l), 0)
+    | _, _, _ => .error "bad import"
+  | _ => .error s!"unknown record {ws}"
+
+def run (h : IO.FS.Stream) : IO Verdict := runLines h ([] : St) step
 
 end Drive.Bloom
